@@ -154,7 +154,7 @@ def rollover_history(args):
         shutil.rmtree(hwd, ignore_errors=True)
 
 
-def drive(pid, tier, seed, which, profile_mix, rule):
+def drive(pid, tier, seed, which, profile_mix, rule, extra_part=None):
     common.build()
     crashrig.build_shim()
     wd = common.workdir(pid.lower())
@@ -191,6 +191,8 @@ def drive(pid, tier, seed, which, profile_mix, rule):
         if not out.samples:
             out.samples.append({"note": "histories are longer than 25 ops", "example_seed": results[0]["seed"], "images": results[0]["images"]})
         out.extra.update(agg)
+        if extra_part is not None:
+            extra_part(out, wd, seed, tier)
         out.exhaustive = True
         out.extra["exhaustive_scope"] = "every prefix of the journal of file mutations (write, set_len, unlink, create, rename) of each explored history, marker positions included"
         out.min_nontrivial = 8
